@@ -29,6 +29,15 @@ Proof. intros x. unfold tr_next. cbn [tr_prev_close snd]. xfin. f_equal. replace
 Theorem C08_roc_flat_0 : forall p h x, roc_ref p h x = x -> x <> 0%R -> roc_spec p h x = Fin 0.
 Proof. exact roc_spec_flat. Qed.
 
+(* ... and exactly on binary64: RateOfChange is mul (div (sub x r) r) 100 on the window reference r for every number type
+   (C03_roc_any_carrier, C03_roc_stream_def); when r is the same float as the input x (finite, non-zero) — every flat window — the
+   result is a finite zero: x - x = +0.0, 0 / x and 0 * 100 round to zero *)
+From Coq Require Import Reals Floats.
+From TA Require Import FloatInst Proofs.FloatErr Proofs.GRoc Proofs.FloatRocFlat.
+Theorem C08_roc_flat_binary64 : forall x : PrimFloat.float, finF x -> FR x <> 0%R ->
+  finF (groc_val FOps x x) /\ FR (groc_val FOps x x) = 0%R.
+Proof. exact roc_flat_float. Qed.
+
 (* ---- refuted for four indicators (float instance of the model; the same inputs are replayed on the crate) ---- *)
 
 (* K3: EfficiencyRatio on a flat window: volatility 0, 0/0 *)
